@@ -154,6 +154,8 @@ pub fn build_checked(n: &Node) -> Option<ArrayData> {
 pub fn run(op: &str, a: &Args) -> Option<Args> {
     let mut p = 0;
     match op {
+        // typed checked constructors: Ok(array) => the array must be valid under the specification
+        "c09.typed" => run_typed(a),
         // verdict of the real validators; [path][tree...]
         "c09.validate" | "c09.accepts" => {
             let path = to_usize(&a[0]);
@@ -476,6 +478,54 @@ pub fn generate(tier: &str, r: &mut Rng, emit: &mut dyn FnMut(Case)) {
         let tag = format!("p{path} t{}.{} m{}", tenc[0], tenc.get(1).copied().unwrap_or(0), names.join("+"));
         emit(Case::new("c09.validate", args.clone(), &["c09.validate"], tag.clone()));
         emit(Case::new("c09.accepts", args.clone(), &["c09.accepts.spec"], tag.clone()));
-        if path != 1 { emit(Case::new("c09.panel", args, &["c09.panel.post1"], tag)); }
+        if path != 1 { emit(Case::new("c09.panel", args.clone(), &["c09.panel.post1"], tag.clone())); }
+        if node.off == 0 { emit(Case::new("c09.typed", args[1..].to_vec(), &["c01.valid.post1"], format!("typed {tag}"))); }
     }
+}
+
+// ------------------------------------------------------------------ typed constructors
+/// Builds the top-level node through the TYPED checked constructor of arrow-array (children through
+/// ArrayData::try_new). Typed constructors take no offset and derive the length from their buffers, so the
+/// resulting array (not the node) is what gets validated: the op returns its physical dump.
+fn typed_ctor(n: &Node) -> Option<arrow_array::ArrayRef> {
+    use arrow_array::types::*;
+    use arrow_array::*;
+    use arrow_buffer::{OffsetBuffer, ScalarBuffer};
+    let nulls = n.nulls.as_ref().map(|x| NullBuffer::new(BooleanBuffer::new(abuf(&x.bytes), x.off, x.len)));
+    let kids: Option<Vec<ArrayRef>> = n.kids.iter().map(|k| build_try_new(k).map(make_array)).collect();
+    let kids = kids?;
+    let sb32 = |b: &Vec<u8>| ScalarBuffer::<i32>::new(abuf(&b[..b.len() / 4 * 4]), 0, b.len() / 4);
+    let sb64 = |b: &Vec<u8>| ScalarBuffer::<i64>::new(abuf(&b[..b.len() / 8 * 8]), 0, b.len() / 8);
+    macro_rules! prim { ($t:ty, $w:expr) => {{ let b = &n.bufs[0]; Arc::new(PrimitiveArray::<$t>::try_new(ScalarBuffer::new(abuf(&b[..b.len() / $w * $w]), 0, b.len() / $w), nulls).ok()?) as ArrayRef }}; }
+    Some(match &n.ty {
+        Ty::Fixed(1) => prim!(Int8Type, 1), Ty::Fixed(2) => prim!(Int16Type, 2), Ty::Fixed(4) => prim!(Int32Type, 4), Ty::Fixed(8) => prim!(Int64Type, 8),
+        Ty::FixedBin(s) => Arc::new(FixedSizeBinaryArray::try_new(*s, abuf(&n.bufs[0]), nulls).ok()?),
+        Ty::Bin { large: false, utf8: true } => Arc::new(StringArray::try_new(OffsetBuffer::new(sb32(&n.bufs[0])), abuf(&n.bufs[1]), nulls).ok()?),
+        Ty::Bin { large: true, utf8: true } => Arc::new(LargeStringArray::try_new(OffsetBuffer::new(sb64(&n.bufs[0])), abuf(&n.bufs[1]), nulls).ok()?),
+        Ty::Bin { large: false, utf8: false } => Arc::new(BinaryArray::try_new(OffsetBuffer::new(sb32(&n.bufs[0])), abuf(&n.bufs[1]), nulls).ok()?),
+        Ty::Bin { large: true, utf8: false } => Arc::new(LargeBinaryArray::try_new(OffsetBuffer::new(sb64(&n.bufs[0])), abuf(&n.bufs[1]), nulls).ok()?),
+        Ty::View { utf8 } => { let b = &n.bufs[0]; let views = ScalarBuffer::<u128>::new(abuf(&b[..b.len() / 16 * 16]), 0, b.len() / 16);
+            let data: Vec<Buffer> = n.bufs[1..].iter().map(|x| abuf(x)).collect();
+            if *utf8 { Arc::new(StringViewArray::try_new(views, data, nulls).ok()?) } else { Arc::new(BinaryViewArray::try_new(views, data, nulls).ok()?) } }
+        Ty::List { large, nullable, c } => { let f = Arc::new(Field::new("item", to_dt(c), *nullable));
+            if *large { Arc::new(LargeListArray::try_new(f, OffsetBuffer::new(sb64(&n.bufs[0])), kids[0].clone(), nulls).ok()?) } else { Arc::new(ListArray::try_new(f, OffsetBuffer::new(sb32(&n.bufs[0])), kids[0].clone(), nulls).ok()?) } }
+        Ty::FixedList { n: s, nullable, c } => Arc::new(FixedSizeListArray::try_new(Arc::new(Field::new("item", to_dt(c), *nullable)), *s, kids[0].clone(), nulls).ok()?),
+        Ty::Struct(_) => { let DataType::Struct(fs) = to_dt(&n.ty) else { return None }; Arc::new(StructArray::try_new(fs, kids, nulls).ok()?) }
+        Ty::Dict { kw: 4, signed: true, .. } => { let keys = PrimitiveArray::<Int32Type>::try_new(sb32(&n.bufs[0]), nulls).ok()?; Arc::new(DictionaryArray::try_new(keys, kids[0].clone()).ok()?) }
+        Ty::Dict { kw: 1, signed: false, .. } => { let b = &n.bufs[0]; let keys = PrimitiveArray::<UInt8Type>::try_new(ScalarBuffer::new(abuf(b), 0, b.len()), nulls).ok()?; Arc::new(DictionaryArray::try_new(keys, kids[0].clone()).ok()?) }
+        Ty::Ree { rw: 4, .. } => { let re = kids[0].as_any().downcast_ref::<Int32Array>()?.clone(); Arc::new(RunArray::<Int32Type>::try_new(&re, kids[1].as_ref()).ok()?) }
+        Ty::Ree { rw: 2, .. } => { let re = kids[0].as_any().downcast_ref::<Int16Array>()?.clone(); Arc::new(RunArray::<Int16Type>::try_new(&re, kids[1].as_ref()).ok()?) }
+        Ty::Union { dense, .. } => { let DataType::Union(fs, _) = to_dt(&n.ty) else { return None };
+            let ids = ScalarBuffer::<i8>::new(abuf(&n.bufs[0]), 0, n.bufs[0].len());
+            let offs = if *dense { Some(sb32(n.bufs.get(1)?)) } else { None };
+            Arc::new(UnionArray::try_new(fs, ids, offs, kids).ok()?) }
+        _ => return None,
+    })
+}
+
+pub fn run_typed(a: &Args) -> Option<Args> {
+    let mut p = 0;
+    let node = decode(a, &mut p);
+    let built = std::panic::catch_unwind(std::panic::AssertUnwindSafe(|| typed_ctor(&node))).unwrap_or(None);
+    Some(match built { Some(arr) => crate::c01::dump(arr.as_ref()).unwrap_or_else(skip), None => skip() })
 }
